@@ -26,6 +26,8 @@ import (
 	"verif/harness/vh"
 )
 
+var stderrW = os.Stderr
+
 func main() {
 	a := vh.ParseArgs()
 	quietLogs()
@@ -312,13 +314,23 @@ func gen(a vh.Args) {
 	if a.Tier == "thorough" {
 		nU = 2000
 	}
-	pn := genPeerCases(r, w, nU)
+	pn, peerTraces := genPeerCases(r, w, nU)
 	var pk []string
 	for k, v := range pn {
 		pk = append(pk, fmt.Sprintf("%s=%d", k, v))
 	}
 	sort.Strings(pk)
 	fmt.Fprintf(os.Stderr, "c04: %d single-peer scenarios over the real raft.Peer: %s\n", nU, strings.Join(pk, " "))
+	dn := genProbeCases(r, w, a.Tier, peerTraces)
+	var dk []string
+	for k, v := range dn {
+		dk = append(dk, fmt.Sprintf("%s=%d", k, v))
+	}
+	sort.Strings(dk)
+	fmt.Fprintf(os.Stderr, "c04: durability probes (power cut after an acknowledged SaveRaftState): %s\n", strings.Join(dk, " "))
+	if dn["probe_errors"] > 0 {
+		os.Exit(1)
+	}
 	for i := 0; i < nS; i++ {
 		u := genUpdate(r, 1, 1)
 		commit := u.commit
@@ -493,8 +505,10 @@ func run(a vh.Args) {
 				st.Distribution["events_apply"] += r.applies
 				if r.badCode != 0 {
 					st.Count("verdict_" + codeText[r.badCode])
-					if kind == "live" {
-						st.Violation(id, fmt.Sprintf("replica %s: %s (event %d of the replica)", k, codeText[r.badCode], r.badPos))
+					// a durability probe is judged at its read-back only (keeps shrunk replays meaningful)
+					probe := strings.Contains(rest, "probe=")
+					if kind == "live" && (!probe || r.badWhy != "" || r.badCode == codeCompletedLost) {
+						st.Violation(id, fmt.Sprintf("replica %s: %s (event %d of the replica)", k, r.badText(), r.badPos))
 					}
 				}
 			}
@@ -510,7 +524,9 @@ func run(a vh.Args) {
 						out.Printf("%s worker %d ok\n", id, w)
 					} else {
 						out.Printf("%s worker %d bad\n", id, w)
-						st.Violation(id, "persist-before-send: "+pbs[w])
+						if !strings.Contains(rest, "probe=") {
+							st.Violation(id, "persist-before-send: "+pbs[w])
+						}
 					}
 				}
 				for _, e := range evs {
@@ -519,6 +535,9 @@ func run(a vh.Args) {
 						st.Count("crash_instants")
 					case 'C':
 						st.Count("recoveries_compared")
+						if sh := shadowCommitBefore(evs, e); sh > e.rec.commit {
+							st.Count("commit_index_lagged_after_power_cut")
+						}
 					}
 				}
 			}
